@@ -201,7 +201,7 @@ PROPERTIES = {
     "C20": {"rules": ["M-DETRT", "T-DET", "M-UNSAFE", "M-FREEZE"], "level": "other"},
     "C15": {"rules": ["T-ALLOC", "T-ENUM", "T-DELTA"], "level": "other"},
     "C07": {"rules": ["T-LOOP", "T-PENDING"], "level": "other"},
-    "C17": {"rules": ["T-MOR", "T-AGE", "T-LOOP"], "level": "translation_validation"},
+    "C17": {"rules": ["T-MOR", "T-AGE", "T-LOOP", "S-PRUNE", "S-SIB"], "level": "translation_validation"},
     "C16": {"rules": ["T-SEMI", "T-PLAN", "T-FLAT"], "level": "translation_validation"},
 }
 
